@@ -27,12 +27,18 @@ COMMITS = [
     ("fedcba98 old/name.rs", "B", "2019-12-31 23:59:59 -0800"),
     ("7777777777", "Zoë Q", "2022-06-07 08:09:10 +0530"),
 ]
+# the renamed-file column as git prints it: padded to the longest path, paths may contain blanks
+COMMITS_PADDED = [
+    ("0123456789abcdef src/short.rs       ", "A U Thor", "2020-01-01 00:00:00 +0000"),
+    ("^89abcde my dir/long file name.rs", "漢字 名前", "2021-02-03 04:05:06 +0100"),
+    ("fedcba98 old/name.rs             ", "B", "2019-12-31 23:59:59 -0800"),
+]
 CODES = [" code x", "\ttab", "", " é漢 y"]
 NUMBERS = [7, 123]
 
 
-def blame_line(ci, number, code):
-    h, author, ts = COMMITS[ci]
+def blame_line(ci, number, code, commits=None):
+    h, author, ts = (commits or COMMITS)[ci]
     return ("%s (%s %s %d)%s" % (h, author, ts, number, code)).encode("utf-8")
 
 
@@ -57,7 +63,8 @@ def parse_row(row, sep="│"):
 class Blame(Problem):
     max_depth = 40
 
-    def __init__(self, K, palette, fmt_fields):
+    def __init__(self, K, palette, fmt_fields, commits=None):
+        self.commits = commits or COMMITS
         self.K = K
         self.palette = set(("i", p) for p in palette)
         self.fmt_fields = fmt_fields      # which of commit/author/timestamp the format shows
@@ -76,7 +83,7 @@ class Blame(Problem):
         return (0, ((), None, None, (), b""))
 
     def successors(self, ps):
-        return [(blame_line(ci, n, code), 0, "blame:%d:%d:%d" % (ci, n, CODES.index(code)))
+        return [(blame_line(ci, n, code, self.commits), 0, "blame:%d:%d:%d" % (ci, n, CODES.index(code)))
                 for ci, n, code in self.alphabet]
 
     def step(self, model, line, kind, out, ps):
@@ -126,7 +133,7 @@ class Blame(Problem):
                                  expected=want_code, observed=shown_code)
         if num.strip() != str(n):
             raise ViolationError("wrong-line-number", "line %d shown with number %r" % (n, num))
-        h, author, ts = COMMITS[ci]
+        h, author, ts = self.commits[ci]
         key = ci
         commit_shown = h.split(" ")[0].lstrip("^")[:7]
         if key == prev_key:
@@ -160,6 +167,7 @@ FORMATS = {
 
 def run_task(task):
     label, K, palette, fmt, ov, deadline = task
+    padded = label.endswith(",padded-file-column")
     opts = dict(ov)
     opts["tabs"] = str(TABS)
     opts["blame-palette"] = " ".join(str(p) for p in palette)
@@ -169,7 +177,7 @@ def run_task(task):
     caller = ["git", "blame", "f.rs"]
     drv = explore.get_driver(caller=caller)
     cid = drv.mkconfig(args)
-    prob = Blame(K, palette, FORMATS[fmt][1])
+    prob = Blame(K, palette, FORMATS[fmt][1], COMMITS_PADDED if padded else None)
     stats, viols = explore.bfs(prob, drv, cid, deadline=deadline)
     drv.drop(cid)
     saturated = stats.max_depth < prob.max_depth and not stats.cap_hit
@@ -207,6 +215,7 @@ def main(tier):
             tasks.append(("K=%d,P=%d,fmt=%s" % (k, len(P), fmt), k, P, fmt, {}))
         tasks.append(("K=%d,P=%d,hyperlinks" % (K, len(P)), K, P, "default", {"hyperlinks": True}))
         tasks.append(("K=%d,P=%d,width=30" % (K, len(P)), K, P, "default", {"width": "30"}))
+        tasks.append(("K=3,P=%d,padded-file-column" % len(P), 3, P, "default", {}))
     res = explore.pmap(run_task, [t + (deadline,) for t in tasks])
     states = transitions = renders = 0
     maxd = 0
